@@ -182,6 +182,25 @@ CHECKS["C15"] = dict(
          "settled loop states, it does not permute the ready queue).",
     design="4/C15")
 
+CHECKS["C17"] = dict(
+    category="fault_enumeration",
+    technique="fault injection by discrete-event simulation on a virtual-time loop: device loss / write failure / end of "
+              "file / mute gateway / caller cancellation placed at generated points of generated schedules",
+    text="Three generated families per run (quick ~6 500 scenarios, thorough ~85 000): (1) HID loss: the device disappears "
+         "by read error, EOF, write error or silently, before/after a write, between echo and answer, during the handshake "
+         "or the reconnect wait, repeatedly, with 0-3 callers, limits None/0/1/3, exceptions on/off, optional return and "
+         "flaky handshake, followed by probe sends; (2) cancel: a send cancelled at a generated await point followed by 300 "
+         "sends so Tridonic sequence numbers wrap; (3) mute: LUBA/SCI gateway stops confirming or answering. Oracle: "
+         "CommunicationError only for sends in flight at a loss with exceptions on, otherwise correct answers; no hang "
+         "(unless the device never returns / the limit is exhausted); no lock, permit or in-flight slot left; 'disconnected' "
+         "then exactly `limit` attempts at the configured spacing then 'failed'; handshake before any command after reopen; "
+         "serial sends end within the documented timeouts with locks released.",
+    note="Trusted: gateway models and the fake os layer (a vanished hidraw fails read/write, may return under the same "
+         "path); virtual clock. After an abandoned send on LUBA/SCI a later answer may be lost (tolerated and counted: "
+         "their confirmations carry no identity); on hasseb the cancelled command is never a query (documented "
+         "protocol limitation).",
+    design="4/C17")
+
 NOT_BUILT_REASON = "check not built yet in this round (planned, see DESIGN.md section 4); not claimed until it is registered"
 
 
